@@ -13,7 +13,7 @@ CLAIMS = {
                 "parameters are all required and non-empty; post-processing of positive strategies only filters / "
                 "serializes / quotes; cached strategies are keyed by everything they are built from. Not decided: that "
                 "hypothesis-jsonschema yields instances of the converted schema, correctness of the quantifier arithmetic "
-                "in update_quantifier, reachability of conforming values through the per-location filters.",
+                "in update_quantifier, reachability of conforming values through the per-location filters. Also decided: token kinds admitted vs accounted in the pattern/length merge (R6), pre-order traversal of the schema conversion (R7), generic FORWARDING of strategy options.",
         "design_ref": "DESIGN.md §4 C01",
         "note": TRUSTED + "; hypothesis-jsonschema's contract",
         "technique": "keyword plumbing into the generator, guard-dominance of keyword removal, cache-key completeness (def-use closure)",
@@ -27,7 +27,7 @@ CLAIMS = {
                 "cannot fall through (reject / SkipTest are no-return in the CFG); labels are plumbed per container; "
                 "MutationContext.mutate returns only after testing the mutation result; 'can this location be negated' "
                 "and strategy caches are keyed by location and settings. Not decided: that a given mutation yields only "
-                "invalid instances (that is what the runtime filter is for).",
+                "invalid instances (that is what the runtime filter is for). Also decided: the positive fallback is decided over all alternatives, never for one drawn alternative, and a verdict taken under a multi-location guard depends on the location (R2/R6).",
         "design_ref": "DESIGN.md §4 C02",
         "note": TRUSTED,
         "technique": "CFG must-pass/dominance with no-return calls, factory/label sibling agreement, def-use of the validator's schema, cache-key completeness",
@@ -41,7 +41,7 @@ CLAIMS = {
                 "NegativeValue, negative helpers recurse with a negative context, each polarity sits under its mode test; "
                 "numeric bounds read with .get() are never tested by truthiness next to a comparison; every "
                 "description prefix a check tests for is produced by some producer. Not decided: validity of each boundary "
-                "value (arithmetic such as multipleOf rounding, regex generation) - value level.",
+                "value (arithmetic such as multipleOf rounding, regex generation) - value level. Also decided: documented methods come from the resolved direct-access map (R5), floor arithmetic idiom for multiples (R6), component labels are fresh objects (no shared cached ComponentInfo), FORWARDING of value labels.",
         "design_ref": "DESIGN.md §4 C03",
         "note": TRUSTED,
         "technique": "def-use label/source coherence per Case construction, yield-discipline lint over generator families, bound-presence idiom (contradiction rule), producer/consumer string protocol",
@@ -69,7 +69,7 @@ CLAIMS = {
                 "folding is a guarded maximum; exit_code is only ever set to 1, is set for NonFatalError and failed "
                 "phases, and _execute exits with it; every exception class swallowed by add_examples sets a mark that "
                 "run_test reports; CLI options reach ExecutionConfig. Not decided: user handlers that swallow, "
-                "Hypothesis-internal conversions, errors raised while reporting an error (second-order faults).",
+                "Hypothesis-internal conversions, errors raised while reporting an error (second-order faults). Also decided: per-label failure store accumulates (O8), who-may-call count_failure (O9), generic FORWARDING in the reporting chain.",
         "design_ref": "DESIGN.md §4 C05",
         "note": TRUSTED + "; exception-class hierarchy table for third-party classes (DESIGN Appendix B)",
         "technique": "CFG with exception edges: catch-all coverage, must-pass-through, value-set dataflow of status variables, plumbing tables",
@@ -82,7 +82,7 @@ CLAIMS = {
                 "pipelines that produce path parameters (fuzzing strategy, coverage template) pass them through quote_all "
                 "which encodes '.' and '..' explicitly; the header mapping is written only from the sanctioned sources; "
                 "cookies put on a reused WSGI client are removed on every exit (CFG incl. exceptions thrown at the yield). "
-                "Not decided: the round-trip law itself (needs a decoder and values) for each serialization style.",
+                "Not decided: the round-trip law itself (needs a decoder and values) for each serialization style. Also decided: no truthiness-based rewriting of case values in the transports (R6), template containers copied before in-place serializers (R3b), FORWARDING of case components.",
         "design_ref": "DESIGN.md §4 C06",
         "note": TRUSTED,
         "technique": "registry agreement between sibling transports, keyword/def-use plumbing, who-may-write of the header mapping, CFG pairing of set/delete cookie",
@@ -96,7 +96,7 @@ CLAIMS = {
                 "added as transitions only for selected targets and the state machine only uses the filtered list; every "
                 "entry point uses get_all_operations(); all 23 CLI filter options reach FilterSet under their own stem and "
                 "the filter set is installed before the engine is created; a schema is only cloned with a filter set "
-                "derived from its own. Not decided: matcher semantics (regex flags, value comparison).",
+                "derived from its own. Not decided: matcher semantics (regex flags, value comparison). Also decided: the direct-access map used by the coverage phase never applies the user's filters (R7), filter-set ownership (R6), FORWARDING of filter keywords.",
         "design_ref": "DESIGN.md §4 C07",
         "note": TRUSTED,
         "technique": "who-must-call + CFG dominance over discovered enumerators, keyword-plumbing tables, ownership/aliasing rule for FilterSet",
@@ -111,7 +111,7 @@ CLAIMS = {
                 "lookups probe the traversal-key cache before constructing and insert the same object afterwards; parsing "
                 "errors become Err(path, method) per operation; the YAML loader keeps non-string keys as text, drops the "
                 "timestamp resolver, and is the only YAML entry point. Not decided: access-order independence of the three "
-                "caches as a history property, recursion limits, value-level resolution.",
+                "caches as a history property, recursion limits, value-level resolution. Also decided: iteration-local resolution scope in loops over path items (R6), FORWARDING in operation construction.",
         "design_ref": "DESIGN.md §4 C08",
         "note": TRUSTED,
         "technique": "CFG pairing (release post-dominates acquire on all exits), computed producer/consumer policy, sibling agreement of constructors, who-may-call for YAML loads",
@@ -124,7 +124,7 @@ CLAIMS = {
                 "feeds curl.generate from the prepared request and passes the case's own headers as known_generated_"
                 "headers; _filter_headers deletes a header only if it is auto-added AND not carried by the case. Not "
                 "decided: curl's own option semantics (-d @file, empty header values), POSIX shell word splitting beyond "
-                "shlex.quote's contract.",
+                "shlex.quote's contract. Also decided: header deletion restricted to auto-added headers on CFG facts (no extra disjunct).",
         "design_ref": "DESIGN.md §4 C09",
         "note": TRUSTED + "; shlex.quote's contract",
         "technique": "taint flow into a shell command with quote() as sanitizer, def-use plumbing of recorded headers",
@@ -139,7 +139,7 @@ CLAIMS = {
                 "the same expand_status_code as the conformance check and `default` excludes exactly the other documented "
                 "codes; evaluate() keeps single-node types and turns any unresolvable part into UNRESOLVABLE before "
                 "concatenation. Not decided: evaluation semantics of each node (JSON pointer escapes, regex extractors), "
-                "scenario histories.",
+                "scenario histories. Also decided: predicate helpers are read through; link values are filtered by identity, never by truthiness; every nested value/item is evaluated recursively.",
         "design_ref": "DESIGN.md §4 C10",
         "note": TRUSTED,
         "technique": "exhaustiveness of if/elif dispatch over enum-like domains, guard-dominance of link value uses, catch-all/no-drop of evaluation errors, sibling agreement of status matching",
@@ -166,7 +166,7 @@ CLAIMS = {
                 "them meaning (settings merged and installed on every path); the unique-input caches are consulted before "
                 "the send, hits short-circuit, both outcomes are stored, keys agree and nobody but the owner API writes "
                 "them; every transport send site sits under ratelimit(). Not decided: counts, races on the failure counter "
-                "across threads, timing of the rate limiter.",
+                "across threads, timing of the rate limiter. Also decided: erroring outcomes are cached too (catch-all around the send), stop flag set before the workers are joined on the Ctrl-C path (R6), who-may-write the outcome caches (R4b).",
         "design_ref": "DESIGN.md §4 C12",
         "note": TRUSTED,
         "technique": "CFG dominance (stop checks before sends), who-may-call/who-may-write tables, configuration plumbing",
@@ -180,7 +180,7 @@ CLAIMS = {
                 "yields/appends in request-shaping code (plus a positive fixture that must match on every run); the "
                 "stateful seed only changes by a constant increment and the CLI seed selection/plumbing is as stated. "
                 "Not decided: process-global caches and multi-worker multiset equality (schedules), determinism of "
-                "third-party libraries.",
+                "third-party libraries. Also decided: seeding is not undone by a later settings write-back (lost update), container-typed parameters are never updated in place (R5).",
         "design_ref": "DESIGN.md §4 C13",
         "note": TRUSTED + "; Hypothesis' contract that a seeded / derandomized test draws the same data",
         "technique": "closed inventory of entropy sources and Hypothesis entry points, def-use of the seed, unordered-iteration lint with positive fixture",
@@ -211,7 +211,7 @@ CLAIMS = {
                 "configs and the writer thread; the sanitizer lower-cases keys, matches exact keys or markers, replaces "
                 "scalars and lists, recurses, redacts the authority whenever userinfo is present; the console header shows "
                 "the base URL through sanitize_url. Not decided: secrets inside bodies (not in the property), "
-                "user-defined handlers, completeness of the key/marker lists beyond the names the property enumerates.",
+                "user-defined handlers, completeness of the key/marker lists beyond the names the property enumerates. Also decided: late binding of the rebindable sanitization config (R6), authority redacted whenever userinfo is present.",
         "design_ref": "DESIGN.md §4 C15",
         "note": TRUSTED,
         "technique": "flag-guarded taint flow (source -> sanitizer -> sink) over the writer functions, plumbing of the sanitize flag",
@@ -226,7 +226,7 @@ CLAIMS = {
                 "controlled bytes are decoded with an error handler and dynamic codec names are guarded; sanitized URLs "
                 "are not re-parsed; handlers are shut down in finally and format dispatch is not crossed. Not decided: "
                 "byte-exactness of the YAML escaping table, timing of the writer thread (join timeout), XML validity "
-                "inside junit_xml.",
+                "inside junit_xml. Also decided: body text is never encoded with json.dumps (surrogate escapes), writer threads are total on network-controlled data (R6).",
         "design_ref": "DESIGN.md §4 C16",
         "note": TRUSTED + "; table of YAML-safe fields in sa/rules/c16.py",
         "technique": "taint flow into hand-built YAML with encoder/safe-type classification, producer/consumer guard check, CFG must-pass per interaction loop",
@@ -239,7 +239,7 @@ CLAIMS = {
                 "and are only mapped by the location serializer; where body and parameter examples are zipped the loop "
                 "runs max(len, len) times (iterating one side only is a violation), and the per-parameter combination "
                 "count is the max over parameters. Not decided: the cycle/islice arithmetic itself, example extraction "
-                "from arbitrarily nested schemas.",
+                "from arbitrarily nested schemas. Also decided: example presence by key membership (R6), every example is bucketed on every path (no value-based de-duplication).",
         "design_ref": "DESIGN.md §4 C17",
         "note": TRUSTED,
         "technique": "exception-to-mark exhaustiveness, CFG must-pass for skipped examples, sibling-source agreement, iteration-space symmetry rule",
@@ -250,7 +250,7 @@ CLAIMS = {
                 "(result of init_filter_set bound to the cell, cell rebound after every registration on every path), every "
                 "loop over get_all_by_name tests _should_skip_hook before using the hook (dominance), all three dispatcher "
                 "scopes applied and chained, auth registrations create one fresh FilterSet handed to provider and both "
-                "chains, keyword forwarding of apply_to/skip_for. Does not decide matcher semantics (value level).",
+                "chains, keyword forwarding of apply_to/skip_for. Does not decide matcher semantics (value level). Also decided: the filter_set attribute is written on every path through a registration, and the cell is reset before the dispatcher can reject the hook.",
         "design_ref": "DESIGN.md §4 C19",
         "note": TRUSTED + "; registration sequences are covered because the rules hold per registration on every path, "
                           "not because sequences are enumerated",
@@ -265,7 +265,7 @@ CLAIMS["C20"] = {
             "and print_ast afterwards; a strategy served from a cache must be keyed by every setting it is built from; "
             "both root types are enumerated and fields are yielded / counted only on the selected edge of _should_skip; "
             "prepare_body wraps the document as {'query': ...} and both transports send prepare_body(case). Not decided: "
-            "validity of generated documents against the schema (needs graphql-core), custom scalar value domains.",
+            "validity of generated documents against the schema (needs graphql-core), custom scalar value domains. Also decided: cache-key completeness with key helpers projected onto the attributes they read; FORWARDING of case/strategy options.",
     "design_ref": "DESIGN.md §4 C20",
     "note": TRUSTED + "; hypothesis-graphql's contract for fields= / allow_null=",
     "technique": "keyword plumbing into the strategy factory, cache-key completeness, CFG dominance over the filter test",
